@@ -251,7 +251,11 @@ class C19(Prop):
     dp = {'cls': 'Device', 'n': 3, 'lb': ['0']*3, 'hb': ['4']*3, 'cbs': [], 'prm': {}, '_py': {'bform': 'scalar', 'cform': None}}
     p1 = {'kind': 'real', 'family': 'corpus', 'model': {'tree': {'k': 'leaf', 'id': 'a', 'dev': dp}, 'n': 3}, 'p': '1', 'sshape': 'flat',
           'stepsize': '1/4096', 'seed': 0, 'start': ['2', '2', '2'], 'repeat': 1}
-    return [{'kind': 'real', 'model': m, 'p': '1/2', 'sshape': sh, 'stepsize': '1', 'seed': 7, 'repeat': 3} for sh in ('dev', 'flat')] + [f3, f4, p1]
+    # F5 (open): on a tree with an MFDeviceSet the projection sub-problem, handed the analytic constraint Jacobians, makes SLSQP answer
+    # status 4 ("Inequality constraints incompatible") from a FEASIBLE start, and step raises; the same call with numerically differentiated
+    # constraints finds the projection (found at quick seed 302)
+    f5 = json.loads('{"kind": "real", "model": {"tree": {"k": "node", "id": "root", "sb": [["-21/16", "9/8"], ["-1/4", "-1/4"], ["-3/2", "3"], ["-15/16", "-1/4"]], "ch": [{"k": "mf", "id": "m1", "dev": {"cls": "CDevice2", "n": 4, "lb": ["3", "7/4", "3/2", "7/4"], "hb": ["3", "7/4", "7/4", "15/4"], "cbs": [["19/4", "21/4", 0, 2], ["25/16", "7/4", 2, 3], ["3/2", "2", 3, 4]], "prm": {"p_l": "-1751/1000", "p_h": "-7/4"}, "_py": {"bform": "pair", "cform": "4tuples"}}, "flows": ["e"], "ratios": null}, {"k": "leaf", "id": "b2", "dev": {"cls": "IDevice2", "n": 4, "lb": ["0", "0", "0", "0"], "hb": ["7/4", "7/4", "7/4", "7/4"], "cbs": [["7/16", "35/32", 3, 4], ["-7/8", "35/16", 1, 3]], "prm": {"p_l": "-5/4", "p_h": "-5/4"}, "_py": {"bform": "table", "cform": "4tuples"}}}, {"k": "leaf", "id": "b3", "dev": {"cls": "PVDevice", "n": 4, "lb": ["-15/4", "-4", "-3/2", "-3"], "hb": ["-2", "-5/2", "-1/2", "-3"], "cbs": [], "prm": {}, "_py": {"bform": "pair", "cform": null}}}], "sub": false}, "n": 4}, "p": "-5/4", "sshape": "flat", "sorder": "C", "stepsize": "4", "seed": 836845820, "repeat": 1, "family": "corpus"}')
+    return [{'kind': 'real', 'model': m, 'p': '1/2', 'sshape': sh, 'stepsize': '1', 'seed': 7, 'repeat': 3} for sh in ('dev', 'flat')] + [f3, f4, p1, f5]
 
   def cases(self, rng, tier, count):
     out = []
